@@ -112,6 +112,7 @@ def check_case(case):
         base = sk_case("AndersonCD", dict(name="Quadratic"), pen, ws_strategy="subdiff", p0=3)
         sols["AndersonCD/subdiff"] = run_skglm(base)
         sols["AndersonCD/fixpoint"] = run_skglm(dict(base, solver=dict(base["solver"], ws_strategy="fixpoint")))
+        sols["AndersonCD/csc"] = run_skglm(dict(base, storage="csc"))
         if not fi:
             for acc in (False, True):
                 for greedy in (False, True):
@@ -184,6 +185,7 @@ def check_case(case):
         sols["MultiTaskBCD/acc"] = run_skglm(base)
         sols["MultiTaskBCD/plain"] = run_skglm(dict(base, solver=dict(base["solver"], use_acc=False)))
         sols["MultiTaskBCD/fixpoint"] = run_skglm(dict(base, solver=dict(base["solver"], ws_strategy="fixpoint")))
+        sols["MultiTaskBCD/csc"] = run_skglm(dict(base, storage="csc"))
         est = skglm.MultiTaskLasso(alpha=alpha, fit_intercept=fi, tol=TOL, max_iter=500).fit(X, y)
         if est.stopping_crit <= TOL:
             sols["estimator"] = (np.vstack([est.coef_.T, est.intercept_[None, :]]) if fi else est.coef_.T.copy(), "ok", None)
@@ -200,6 +202,7 @@ def check_case(case):
                        dict(name="WeightedGroupL2", alpha=alpha, weights=gw.tolist(), groups=groups, n_features=p, positive=False), ws_strategy="subdiff", p0=3)
         sols["GroupBCD/subdiff"] = run_skglm(base)
         sols["GroupBCD/fixpoint"] = run_skglm(dict(base, solver=dict(base["solver"], ws_strategy="fixpoint")))
+        sols["GroupBCD/csc"] = run_skglm(dict(base, storage="csc"))
         est = skglm.GroupLasso(groups=[len(g) for g in groups], alpha=alpha, weights=gw, fit_intercept=fi, tol=TOL, max_iter=2000).fit(X, y)
         if est.stop_crit_ <= TOL:
             sols["estimator"] = (np.r_[est.coef_, est.intercept_] if fi else est.coef_.copy(), "ok", None)
